@@ -42,6 +42,40 @@ NO_CODES = {"C09", "C10", "C14", "C16", "C19"}          # persist, codec (codes 
 NO_TOPICS = {"C10", "C14", "C15", "C16", "C19"}
 USES_FILES = {"C09", "C10", "C12"}
 
+STATUS = {"BAD_REQUEST": 400, "UNPROCESSABLE_ENTITY": 422, "CONFLICT": 409, "METHOD_NOT_ALLOWED": 405, "UNAUTHORIZED": 401, "NOT_FOUND": 404,
+          "FORBIDDEN": 403, "INTERNAL_SERVER_ERROR": 500, "NO_CONTENT": 204}
+USES_HTTP = {"C01", "C08", "C15"}
+
+def http_tables():
+    """(status per error code in the source, status per error code in Model/Rest.v http_status)"""
+    err = open(os.path.join(REPO, "worterbuch-common", "src", "error.rs")).read()
+    codes, _ = source_consts()
+    m = re.search(r"impl From<&WorterbuchError> for ErrorCode \{(.*?)\n\}", err, re.S)
+    var_code = {}
+    for vs, name in re.findall(r"((?:WorterbuchError::\w+(?:\([^)]*\))?\s*\|?\s*)+)=>\s*\{?\s*ErrorCode::(\w+)", m.group(1) if m else ""):
+        for var in re.findall(r"WorterbuchError::(\w+)", vs):
+            if name in codes: var_code[var] = codes[name]
+    m = re.search(r"impl From<WorterbuchError> for \(StatusCode, String\) \{(.*?)\n\}", err, re.S)
+    body = m.group(1) if m else ""
+    src = {}
+    for vs, st in re.findall(r"((?:\|?\s*WorterbuchError::\w+(?:\([^)]*\))?\s*)+)=>\s*\{?\s*\(StatusCode::(\w+)", body):
+        for var in re.findall(r"WorterbuchError::(\w+)", vs):
+            if var in ("FeatureDisabled", "Other", "ServerResponse", "Unauthorized"): continue      # no code of their own / decided inside
+            if var in var_code: src[var_code[var]] = STATUS.get(st)
+    # Unauthorized: MissingToken -> 401, anything else -> 403 (the model: TNone -> 401, TInvalid / insufficient -> 403, code 14 -> 403)
+    mu = re.search(r"WorterbuchError::Unauthorized\(ae\) => match &ae \{\s*AuthorizationError::MissingToken => \(StatusCode::(\w+).*?_ => \(StatusCode::(\w+)", body, re.S)
+    if mu and "Unauthorized" in var_code: src[var_code["Unauthorized"]] = STATUS.get(mu.group(2))
+    missing_token = STATUS.get(mu.group(1)) if mu else None
+    rest = open(os.path.join(ROOT, "coq", "Model", "Rest.v")).read()
+    md = re.search(r"Definition http_status \(code : N\) : N :=(.*?)\.\n", rest, re.S)
+    model, default = {}, None
+    if md:
+        for cond, st in re.findall(r"if ((?:N\.eqb code \d+(?: \|\| )?)+) then (\d+)", md.group(1)):
+            for c in re.findall(r"N\.eqb code (\d+)", cond): model[int(c)] = int(st)
+        dm = re.search(r"else (\d+)\s*$", md.group(1).strip())
+        default = int(dm.group(1)) if dm else None
+    return src, model, default, missing_token
+
 def check(prop):
     """-> list of mismatches (empty: the constants the model of this property uses are those of the source)"""
     nums, strs, bad = model_consts()
@@ -63,4 +97,13 @@ def check(prop):
         if mname not in strs: bad.append(f"model constant {mname} not found")
         elif not os.path.exists(p) or ('"' + strs[mname]) not in open(p).read() and (strs[mname] + '"') not in open(p).read():
             bad.append(f"the file name {strs[mname]!r} ({mname}) does not occur in {rel}")
-    return bad, {"error_codes_compared": len(nums), "topic_names_compared": len(tmap), "file_names_compared": len(fmap), "string_constants_spelled": len(strs)}
+    nhttp = 0
+    if prop in USES_HTTP:
+        src, model, default, missing_token = http_tables()
+        if len(src) < 15: bad.append("the error -> HTTP status table of worterbuch-common/src/error.rs could not be read")
+        for code, st in sorted(src.items()):
+            ms = model.get(code, default)
+            if ms != st: bad.append(f"error code {code} is answered with HTTP {st} in the source, {ms} in Model/Rest.v http_status")
+        if missing_token != 401: bad.append(f"a missing token is answered with HTTP {missing_token} in the source, 401 in Model/Rest.v")
+        nhttp = len(src)
+    return bad, {"http_statuses_compared": nhttp, "error_codes_compared": len(nums), "topic_names_compared": len(tmap), "file_names_compared": len(fmap), "string_constants_spelled": len(strs)}
